@@ -53,6 +53,26 @@ fn oracle(events: &[Event], env: &HashMap<&str, std::ffi::OsString>) -> String {
     String::new()
 }
 
+/// "The line-based stdin/file format lists each (kind, path) pair of the batch once per event, in event order": one line per pair
+/// (one `other:` line per path of an event without a kind), each line `<word>:<path>` and terminated
+fn simple_oracle(events: &[Event], simple: &str) -> String {
+    let mut want: Vec<(String, bool)> = vec![];      // (path, the event has no filesystem kind)
+    for e in events {
+        let nk = e.tags.iter().filter(|t| matches!(t, Tag::FileEventKind(_))).count();
+        for t in &e.tags { if let Tag::Path { path, .. } = t { for _ in 0..nk.max(1) { want.push((path.to_string_lossy().to_string(), nk == 0)); } } }
+    }
+    if !simple.is_empty() && !simple.ends_with('\n') { return format!("line format: the last line is not terminated: {:?}", simple.lines().last().unwrap_or("")); }
+    let lines: Vec<&str> = simple.lines().collect();
+    if lines.len() != want.len() { return format!("line format: {} (kind, path) pairs in the batch but {} lines", want.len(), lines.len()); }
+    for (l, (p, kindless)) in lines.iter().zip(want.iter()) {
+        match l.split_once(':') {
+            Some((w, q)) if !w.is_empty() && w.chars().all(|c| c.is_ascii_lowercase()) && q == p && (!*kindless || w == "other") => {}
+            _ => return format!("line format: line {l:?} does not list the pair due at its position (path {p:?}{})", if *kindless { ", an event without a kind: `other`" } else { "" }),
+        }
+    }
+    String::new()
+}
+
 fn main() {
     let seed: u64 = std::env::args().nth(1).and_then(|s| s.parse().ok()).unwrap_or(1);
     let n: usize = std::env::args().nth(2).and_then(|s| s.parse().ok()).unwrap_or(1000);
@@ -94,7 +114,8 @@ fn main() {
         let mut vars: Vec<String> = env.iter().filter(|(k, _)| **k != "COMMON").map(|(k, v)| format!("{k}={}", v.to_string_lossy())).collect();
         vars.sort();
         let simple = verif::events_to_simple_format(&events).unwrap();
-        let oracle = oracle(&events, &env);
+        let mut oracle = oracle(&events, &env);
+        if oracle.is_empty() { oracle = simple_oracle(&events, &simple); }
         writeln!(cases, "SUM\t{}", enc.join("\x1d")).unwrap();
         writeln!(outs, "COMMON={}|{}||{}{}", common, vars.join("|"), simple.lines().collect::<Vec<_>>().join(";"), if oracle.is_empty() { String::new() } else { format!("\t!{oracle}") }).unwrap();
     }
